@@ -62,6 +62,7 @@ let scripted_path (path : string) (v : bview) : response hres =
     HNormal { r with r_body = BKnown (n_of_int 10, true, plain_reader (List.init (10 + num_int k) (fun i -> n_of_int (if i < 10 then 48 + i else 90)))) }
   | None ->
   if path = "/fm" then (let r = resp_new (n_of_int 200) in HNormal { r with r_body = BKnown (n_of_int 10, false, plain_reader []) }) else
+  (match strip_prefix "/w" path with Some _ -> Some (text 200 vs) | None -> None) |> function Some r -> r | None ->
   if path = "/d" then HDrop
   else if path = "/p" then text 500 "Server error"      (* the panic is turned into this by HttpServerBuilder::spawn *)
   else text 404 vs
@@ -271,12 +272,12 @@ let () =
               if not (reason_text_ok v) then ok := false end
           | None -> ()) (split_ws impl_line);
       Printf.printf "%s | %s\n" impl_line (if !ok then "oracle=ok" else "oracle=fail@reason-phrase-not-printable")
-    | mode :: rest when mode = "D" || mode = "S" || mode = "I" || mode = "X" || mode = "B" ->
+    | mode :: rest when mode = "D" || mode = "S" || mode = "I" || mode = "X" || mode = "B" || mode = "R" ->
       let (rest, ann) = (let rec cut acc = function
           | "@c09" :: a -> (List.rev acc, Some a) | x :: r -> cut (x :: acc) r | [] -> (List.rev acc, None) in cut [] rest) in
       let (small, cache, script) = (match mode, rest with
           | "D", [s; c; sc] -> (s, c, sc)
-          | ("S" | "I"), [s; c; _; _; sc] -> (s, c, sc)
+          | ("S" | "I" | "R"), [s; c; _; _; sc] -> (s, c, sc)
           (* B: the same exchange while another request keeps the one-thread blocking pool busy *)
           | "B", [s; c; _slow; sc] -> (s, c, sc)
           (* X: a disk write fault while the upload (longer than the file-size limit) is saved: the same
